@@ -91,18 +91,19 @@ def run(ctx):
     cases = []
     for name, var in variants:
         cases.append({"fluid": {"kind": "shipped", "name": name, "variant": var}})
-    for _ in range(ctx.budget(12, 80)):
+    for j in range(ctx.budget(12, 80)):
         cp = [rng.uniform(1e-6, 1e-4), rng.uniform(0.2, 1.0)]
         rho = [-rng.uniform(1e-10, 6e-10), rng.uniform(1.5e-6, 2.5e-6)]
         mu = [rng.uniform(1e-9, 7e-8), -rng.uniform(1e-5, 1.4e-4), rng.uniform(0.07, 0.1)] if rng.random() < 0.5 else [rng.uniform(1e-7, 2e-7), rng.uniform(4e-5, 6e-5)]
         k = [-rng.uniform(0, 1e-7), rng.uniform(4e-4, 6e-4)]
         kw = {}
-        if rng.random() < 0.7:
+        if j % 10 < 7:
             kw = {"film_min": hx(rng.choice([1e-8, 1e-4, 5e-3])), "T_max": hx(rng.choice([1000.0, 1200.0, 2000.0])),
-                  "T_min": hx(rng.choice([0.0, 500.0, 700.0])), "laminar_cutoff": hx(rng.choice([2e3, 3e3, 1e4])),
+                  "T_min": hx(rng.choice([0.0, 500.0, 700.0])), "laminar_cutoff": hx([2e3, 500.0, 3e3, 100.0, 1e4][j % 5]),
                   "laminar_value": hx(rng.choice([4.01, 3.66]))}
         cases.append({"fluid": {"kind": "poly", "cp": [hx(x) for x in cp], "rho": [hx(x) for x in rho], "mu": [hx(x) for x in mu],
-                                "k": [hx(x) for x in k], "kwargs": kw}})
+                                "k": [hx(x) for x in k], "kwargs": kw},
+                      "near": {"rho": rho, "mu": mu, "cut": float.fromhex(kw["laminar_cutoff"]) if kw else 2000.0}})
     npts = ctx.budget(40, 200)
     for i, c in enumerate(cases):
         c["id"] = i
@@ -112,6 +113,14 @@ def run(ctx):
             u = 10.0 ** rng.uniform(2, 9)
             r = rng.choice([2.0, 8.0, 12.5, 50.0])
             pts.append([hx(T), hx(u), hx(r)])
+        if "near" in c:
+            # velocities that put the Reynolds number just below and above the laminar cut-off
+            nr_ = c.pop("near")
+            for fct in (0.5, 0.9, 1.1, 1.5, 2.0, 4.0, 8.0):
+                Tn, rn = rng.choice([750.0, 900.0]), rng.choice([8.0, 12.5])
+                un = fct * nr_["cut"] * polyval(nr_["mu"], Tn) / (polyval(nr_["rho"], Tn) * 2.0 * rn)
+                if un > 0 and math.isfinite(un):
+                    pts.append([hx(Tn), hx(un), hx(rn)])
         # a velocity ladder at fixed T, r for the monotonicity clause
         T0, r0 = rng.uniform(700, 1000), rng.choice([8.0, 12.5])
         for e in np.linspace(5, 9, 25):
